@@ -35,8 +35,180 @@ def exhaustive_ranges(maxlen):
     return ops
 
 
+# ---------------------------------------------------------------------------------------------------
+# the pointer structure itself (work package B): a bare list.LinkedList driven through every method,
+# against Model/LinkedList.lean (heap of nodes, head / tail / prev / next / length); after every
+# operation the reply and the whole structure (length field, forward walk, backward walk, head.prev /
+# tail.next) are compared verbatim.
+
+I64MAX = 2 ** 63 - 1
+I64MIN = -2 ** 63
+
+
+def _varint(n):
+    u = (n << 1) ^ (n >> 63)
+    out = []
+    while u >= 0x80:
+        out.append((u & 0x7f) | 0x80)
+        u >>= 7
+    out.append(u)
+    return bytes(out)
+
+
+def _shadow_rem(xs, count, v):
+    if count == 0 or count == I64MIN:
+        return [x for x in xs if x != v]
+    if count > 0:
+        out, k = [], 0
+        for x in xs:
+            if x == v and k < count:
+                k += 1
+            else:
+                out.append(x)
+        return out
+    return _shadow_rem(xs[::-1], -count, v)[::-1]
+
+
+def linked_list_stream(rng, n, maxlen=40):
+    """random method sequence on one bare list; a shadow sequence only steers the generator (sizes,
+    pivots that exist, indexes around the ends) — it is never compared with anything"""
+    vals = ["61", "62", "63", "-", "6161", "00"]
+    ops = ["ll new"]
+    xs = []
+
+    def val():
+        return rng.choice(vals[:3]) if rng.random() < 0.7 else rng.choice(vals)
+
+    def idx():
+        ln = len(xs)
+        r = rng.random()
+        if r < 0.75:
+            return rng.randint(-ln - 2, ln + 2)
+        if r < 0.9:
+            return rng.choice([0, -1, 1, ln, -ln, ln - 1, -ln - 1, ln + 1])
+        return rng.choice([I64MAX, I64MIN, I64MIN + 1, I64MAX - 1, 2 ** 31, -2 ** 31, 2 ** 32, -2 ** 32 - 1])
+
+    def count():
+        ln = len(xs)
+        r = rng.random()
+        if r < 0.5:
+            return rng.choice([0, 1, -1, 2, -2, 3, -3])
+        if r < 0.8:
+            return rng.choice([ln, -ln, ln + 1, -ln - 1, ln - 1, 1 - ln])
+        return rng.choice([I64MAX, I64MIN, I64MIN + 1, I64MAX - 1])
+
+    def norm(i, clamp0=False):
+        if i < 0:
+            i += len(xs)
+            if clamp0 and i < 0:
+                i = 0
+        return i
+
+    while len(ops) < n:
+        ln = len(xs)
+        r = rng.random()
+        if ln > maxlen:
+            r = 0.30 + 0.2 * rng.random()          # shrink: pops, trims, removals
+        if r < 0.10 or (ln < 3 and r < 0.45):
+            k = rng.choice([1, 1, 2, 3, 5]) if rng.random() < 0.9 else rng.randint(6, 12)
+            d = [val() for _ in range(k)]
+            if rng.random() < 0.03:
+                d = []
+            if rng.random() < 0.5:
+                ops.append("ll LPush " + " ".join(d)); xs = d[::-1] + xs
+            else:
+                ops.append("ll RPush " + " ".join(d)); xs = xs + d
+            ops[-1] = ops[-1].rstrip()
+        elif r < 0.18:
+            c = count() if rng.random() < 0.5 else rng.choice([1, 1, 2])
+            k = max(0, min(c, ln))
+            if rng.random() < 0.5:
+                ops.append(f"ll LPop {c}"); xs = xs[k:]
+            else:
+                ops.append(f"ll RPop {c}"); xs = xs[:ln - k]
+        elif r < 0.30:
+            ops.append(f"ll LRange {idx()} {idx()}")
+        elif r < 0.38:
+            a, b = idx(), idx()
+            if ln > maxlen // 2 or rng.random() < 0.5:
+                pass
+            else:                                  # keep most of a short list: wide windows
+                a, b = rng.choice([0, 1, -ln, -ln - 1, I64MIN]), rng.choice([-1, -2, ln, ln - 2, I64MAX])
+            ops.append(f"ll LTrim {a} {b}")
+            s, e = norm(a), norm(b)
+            xs = [x for i, x in enumerate(xs) if not (i < s or i > e)]
+        elif r < 0.50:
+            c, v = count(), val()
+            ops.append(f"ll LRem {c} {v}"); xs = _shadow_rem(xs, c, v)
+        elif r < 0.62:
+            i = idx()
+            ops.append(f"ll LIndex {i}")
+        elif r < 0.72:
+            i, v = idx(), val()
+            ops.append(f"ll LSet {i} {v}")
+            j = norm(i)
+            if 0 <= j < ln:
+                xs[j] = v
+        elif r < 0.90:
+            p, d, before = val(), val(), rng.random() < 0.5
+            ops.append(f"ll LInsert {p} {d} {1 if before else 0}")
+            if p in xs:
+                j = xs.index(p)
+                xs.insert(j if before else j + 1, d)
+        elif r < 0.93:
+            ops.append("ll LLen")
+        elif r < 0.96:
+            ops.append("ll Size")
+        elif r < 0.98:
+            ops.append("ll GetValue")
+        else:
+            # SetValue appends what a well-formed payload holds; a lone continuation byte ends the loop (n == 0)
+            d = [val() for _ in range(rng.randint(0, 3))]
+            payload = b"".join(_varint(len(bytes.fromhex(x) if x != "-" else b"")) + (bytes.fromhex(x) if x != "-" else b"") for x in d)
+            if rng.random() < 0.3:
+                payload += b"\x80"
+            ops.append("ll SetValue " + (payload.hex() or "-")); xs = xs + d
+    return ops
+
+
+def linked_list_edges():
+    """every index from -len-2 to len+2 and the counts 0, ±1, ±len, int64 extremes on lists of 0..4 nodes with duplicates"""
+    ops = []
+    for n in range(0, 5):
+        build = ["ll new"] + ([("ll RPush " + " ".join("%02x" % (0x61 + j % 2) for j in range(n)))] if n else [])
+        ext = [I64MAX, I64MIN, I64MIN + 1]
+        rng_i = list(range(-n - 2, n + 3)) + ext
+        ops += build
+        for a in rng_i:
+            ops.append(f"ll LIndex {a}")
+            for b in rng_i:
+                ops.append(f"ll LRange {a} {b}")
+        for a in rng_i:
+            ops += build + [f"ll LSet {a} 7a"]
+            for v in ("61", "62", "7a"):
+                ops += build + [f"ll LRem {a} {v}"]
+            ops += build + [f"ll LPop {a}"] + build + [f"ll RPop {a}"]
+            for b in rng_i:
+                ops += build + [f"ll LTrim {a} {b}", "ll LPush 70", "ll RPush 71", "ll RPop 1", "ll LPop 1"]
+        for p in ("61", "62", "7a"):
+            for before in (0, 1):
+                ops += build + [f"ll LInsert {p} 78 {before}", "ll LRem -1 78"]
+    return ops
+
+
 def run(ctx, proofs_ok):
     quick = ctx.tier == "quick"
+    # the pointer structure of ds/list against Model/LinkedList.lean (whole structure after every operation)
+    h = vlib.build_harness(ctx)
+    vlib.correspond_stream(ctx, h, linked_list_edges(), "ll-edges",
+                           "bare linked list: every index -len-2..len+2, counts 0, +-1, +-len, int64 extremes on lists of 0..4 nodes (pointer structure compared after every operation)")
+    for i in range(8 if quick else 40):
+        if ctx.violations:
+            return
+        vlib.correspond_stream(ctx, h, linked_list_stream(ctx.rng, 2500 if quick else 8000), f"ll-{i}",
+                               "bare linked list: random method sequences, lists of 0..40 nodes with duplicates (pointer structure compared after every operation)")
+    if ctx.violations:
+        return
     apicheck.run_streams(ctx, [
         {"label": "random list command streams (embedded API, memory backend)", "fams": ["list", "list", "list", "list", "key"],
          "n": (1500, 5000), "count": (4, 40)},
